@@ -20,6 +20,7 @@ func VH_C09() {
 	logger.SetLogger(vlog{})
 	R, T, E := vf.Param("R", 1), vf.Param("T", 2), vf.Param("E", 2)
 	kl2, qkl, maxTs := vf.Param("KL2", 0), vf.Param("QKL", 1), byte(vf.Param("MAXTS", 9))
+	klmask := vf.Param("KLMASK", 0) // bit n set: the n-th entry (in flush order) has a 2-byte user key
 	dir := vf.Dir()
 	db := &DB{oracle: newOracle()}
 	lm := &levelManager{dir: dir, l0TargetNum: vf.Param("L0T", 1), ratio: vf.Param("RATIO", 2), dataBlockSize: vf.Param("BLK", 0), logger: vlog{}, db: db}
@@ -54,7 +55,7 @@ func VH_C09() {
 			}
 			for i := 0; i < ne; i++ {
 				kl := 1
-				if n < kl2 {
+				if n < kl2 || (klmask>>uint(n))&1 == 1 {
 					kl = 2
 				}
 				n++
